@@ -4,3 +4,6 @@
 #![allow(dead_code, unused_imports, clippy::all)]
 
 pub mod common;
+pub mod c06;
+mod gen_c06;
+mod c07;
